@@ -435,7 +435,19 @@ def shard_logger_extra(args):
             if problem:
                 acc.violation(problem[0], problem[1], case, size=(2, 1))
     # (2) the configured logger is the one configured *now*: renaming takes effect
-    names = ["verif.c16.first", "verif.c16.second", None]
+    # (3) the logging configuration is the one in force *now*: a level that was disabled at
+    #     an earlier write and is enabled since then (the logger's own level, an ancestor's,
+    #     logging.disable) gets its record, and the other way round
+    for mode, level, pattern in itertools.product(
+            ("own", "ancestor", "disable"), LEVELS,
+            ([False, True], [True, False, True], [False, False, True, True], [True, False])):
+        case = {"kind": "level-change", "mode": mode, "level": level, "enabled": pattern}
+        problem = run_logger_extra(case)
+        acc.case(nontrivial_key=repr(case), sample=case if mode == "ancestor" else None)
+        acc.outcome(("level-change", problem is None))
+        if problem:
+            acc.violation(problem[0], problem[1], case, size=(len(pattern), 0))
+    names = ["verif.c16.first", "verif.c16.second", None, ""]
     for first, second, level in itertools.product(names, names, LEVELS):
         if first == second:
             continue
@@ -502,10 +514,12 @@ def run_logger_extra(case):
             logger.setLevel(saved_state[0])
             logger.propagate = saved_state[1]
         return None
+    if case["kind"] == "level-change":
+        return run_level_change(case, pool)
     collect = _Collect()
     default_name = type(pool).__qualname__
     loggers = [logging.getLogger(n) for n in ("verif.c16.first", "verif.c16.second",
-                                              default_name)]
+                                              default_name, "")]
     saved = [(lg, lg.level, lg.propagate) for lg in loggers]
     try:
         for lg in loggers:
@@ -517,7 +531,8 @@ def run_logger_extra(case):
         decorated.demand = 1
         decorated.name = second
         decorated.demand = 2
-        want = [n if n is not None else default_name for n in (first, second)]
+        want = ["root" if n == "" else n if n is not None else default_name
+                for n in (first, second)]
         if decorated.name != want[1]:
             return ("logger:name-not-updated", "name reads %r after setting %r"
                     % (decorated.name, second))
@@ -531,6 +546,55 @@ def run_logger_extra(case):
         for lg, level, propagate in saved:
             lg.removeHandler(collect)
             lg.setLevel(level)
+            lg.propagate = propagate
+    return None
+
+
+def run_level_change(case, pool):
+    """Writes through one Logger while the logging configuration enables / disables its
+    level in between; every write made while the level is enabled gives one record"""
+    from cobald.decorator.logger import Logger
+
+    level = case["level"]
+    parent, child = logging.getLogger("verif.c16lc"), logging.getLogger("verif.c16lc.pool")
+    collect = _Collect()
+    saved = [(lg, lg.level, lg.propagate) for lg in (parent, child)]
+    saved_disable = logging.root.manager.disable
+
+    def switch(enabled):
+        if case["mode"] == "own":
+            child.setLevel(level if enabled else level + 1)
+        elif case["mode"] == "ancestor":
+            parent.setLevel(level if enabled else level + 1)
+        else:
+            logging.disable(logging.NOTSET if enabled else level)
+
+    try:
+        parent.addHandler(collect)
+        parent.propagate = False
+        parent.setLevel(1)
+        child.setLevel(logging.NOTSET if case["mode"] == "ancestor" else 1)
+        decorated = Logger(pool, name=child.name, level=level)
+        want = 0
+        for number, enabled in enumerate(case["enabled"]):
+            switch(enabled)
+            decorated.demand = number + 1
+            want += 1 if enabled else 0
+            if pool.demand != number + 1:
+                return ("logger:write-lost", "write %d did not reach the pool" % (number + 1))
+            if len(collect.seen) != want:
+                return ("logger:level-configuration-of-an-earlier-write",
+                        "level %d %s by %s over the writes: after write %d there are %d "
+                        "records, expected %d" % (
+                            level, ["enabled" if e else "disabled" for e in case["enabled"]],
+                            case["mode"], number + 1, len(collect.seen), want))
+    except Exception as err:  # noqa: B902
+        return ("logger:level-change-raises", "%s: %s" % (type(err).__name__, err))
+    finally:
+        logging.disable(saved_disable)
+        parent.removeHandler(collect)
+        for lg, lvl, propagate in saved:
+            lg.setLevel(lvl)
             lg.propagate = propagate
     return None
 
